@@ -3,15 +3,45 @@
 ; ASCII lower-casing of one byte (RFC 6125 6.4.1 / RFC 4343: only 'A'..'Z' are folded)
 ;; spec lc (b uint8) uint8
 (define-fun lc ((b (_ BitVec 8))) (_ BitVec 8) (ite (and (bvule #x41 b) (bvule b #x5a)) (bvadd b #x20) b))
+; s without one trailing byte c, if it has one (strings.TrimSuffix with a one-byte suffix).
+; The dropped position is zeroed so that a string whose array is zero beyond its length
+; stays so (govc's string values carry an array; bytes beyond the length are irrelevant).
+;; spec trim1 (s string, c uint8) string
+(define-fun trim1 ((s Str) (c (_ BitVec 8))) Str (ite (and (bvsge (str_len s) #x0000000000000001) (= (select (str_arr s) (bvsub (str_len s) #x0000000000000001)) c)) (mkStr (bvsub (str_len s) #x0000000000000001) (store (str_arr s) (bvsub (str_len s) #x0000000000000001) #x00)) s))
 ; Names for the result of splitting string s at every occurrence of byte c (strings.Split
-; with a one-byte separator). They are uninterpreted: everything known about them is the
-; characterisation assumed in the contract of strings.Split (/verif/extern/hostname.contracts):
-; nparts >= 1, part k occupies s[partoff k : partoff (k+1) - 1], consecutive parts are
-; separated by exactly one byte c, and no part contains c. That characterisation has
-; exactly one solution for every s, so the names are well defined.
+; with a one-byte separator): nparts = number of parts, part k = the k-th part, partoff k =
+; offset in s at which part k starts. The three names are uninterpreted; what is known about
+; them is split_ok below, which the assumed contract of strings.Split
+; (/verif/extern/hostname.contracts) asserts for its argument. split_ok has exactly one
+; solution for every s (the parts are the maximal c-free substrings), so it defines them.
 ;; spec nparts (s string, c uint8) int
 (declare-fun nparts (Str (_ BitVec 8)) (_ BitVec 64))
 ;; spec partoff (s string, c uint8, k int) int
 (declare-fun partoff (Str (_ BitVec 8) (_ BitVec 64)) (_ BitVec 64))
 ;; spec part (s string, c uint8, k int) string
 (declare-fun part (Str (_ BitVec 8) (_ BitVec 64)) Str)
+; "Split slices s into all substrings separated by sep": at least one part; the parts joined
+; by c give s (part 0 starts at 0, part k+1 starts one byte after the end of part k, that
+; byte is c, and the last part ends at len(s)); part k is the substring of s at its offset;
+; no part contains c; a part's array is zero beyond its length (representation detail).
+;; spec split_ok (s string, c uint8) bool
+(define-fun split_ok ((s Str) (c (_ BitVec 8))) Bool (and
+  (bvsge (nparts s c) #x0000000000000001)
+  (bvsle (nparts s c) (bvadd (str_len s) #x0000000000000001))
+  (= (partoff s c #x0000000000000000) #x0000000000000000)
+  (= (partoff s c (nparts s c)) (bvadd (str_len s) #x0000000000000001))
+  (forall ((k (_ BitVec 64))) (! (=> (and (bvsle #x0000000000000000 k) (bvslt k (nparts s c)))
+      (and (bvsle #x0000000000000000 (str_len (part s c k)))
+           (bvsle #x0000000000000000 (partoff s c k))
+           (= (partoff s c (bvadd k #x0000000000000001)) (bvadd (partoff s c k) (str_len (part s c k)) #x0000000000000001))
+           (bvsle (partoff s c (bvadd k #x0000000000000001)) (bvadd (str_len s) #x0000000000000001))))
+    :pattern ((part s c k))))
+  (forall ((k (_ BitVec 64)) (j (_ BitVec 64))) (! (=> (and (bvsle #x0000000000000000 k) (bvslt k (nparts s c)))
+      (ite (and (bvsle #x0000000000000000 j) (bvslt j (str_len (part s c k))))
+           (and (= (select (str_arr (part s c k)) j) (select (str_arr s) (bvadd (partoff s c k) j)))
+                (not (= (select (str_arr (part s c k)) j) c)))
+           (= (select (str_arr (part s c k)) j) #x00)))
+    :pattern ((select (str_arr (part s c k)) j))))
+  (forall ((k (_ BitVec 64))) (! (=> (and (bvsle #x0000000000000001 k) (bvslt k (nparts s c)))
+      (= (select (str_arr s) (bvsub (partoff s c k) #x0000000000000001)) c))
+    :pattern ((partoff s c k))))))
